@@ -166,6 +166,7 @@ type Exec struct {
 	tokOvfAx map[int]bool
 	assumeN  int
 	ufs      map[string]bool
+	roundMemo map[string]Float // floor/ceil/trunc/round of an identical real term is the identical Int variable
 	stubs    map[string]bool
 	timeoutMs int
 	repoPrefix string
